@@ -33,6 +33,8 @@ pub trait ObjW {
     fn io_write(&mut self, buf: &[u8]) -> R<usize>;
     fn copy_from(&mut self, r: &mut dyn ObjR, n: u64) -> R<()>;
     fn count(&self) -> usize;
+    /// consume the writer: kind 1 = into_inner where the type has one, otherwise drop; false = it reported an error
+    fn finish(self: Box<Self>, kind: u128) -> bool;
 }
 
 pub trait ObjR {
@@ -93,6 +95,13 @@ pub trait WExtra {
     fn x_count(&self) -> usize {
         0
     }
+    /// consume the writer through its own `into_inner` (None: the type has none, it is just dropped)
+    fn x_finish(self) -> Option<bool>
+    where
+        Self: Sized,
+    {
+        None
+    }
 }
 pub trait RExtra: Sized {
     fn x_clone(&self) -> Option<Self> {
@@ -114,6 +123,9 @@ macro_rules! wextra_buf {
         {
             fn x_io_write(&mut self, buf: &[u8]) -> Option<std::io::Result<usize>> {
                 Some(std::io::Write::write(self, buf))
+            }
+            fn x_finish(self) -> Option<bool> {
+                Some(self.into_inner().is_ok())
             }
         }
     };
@@ -364,6 +376,15 @@ impl<E: Endianness, T: CodesWrite<E> + GammaWriteParam<E> + DeltaWriteParam<E> +
     fn count(&self) -> usize {
         self.w.x_count()
     }
+    fn finish(self: Box<Self>, kind: u128) -> bool {
+        let me = *self;
+        if kind == 1 {
+            me.w.x_finish().unwrap_or(true)
+        } else {
+            drop(me);
+            true
+        }
+    }
 }
 
 impl<E: Endianness, T: CodesRead<E> + BitSeek + RExtra + 'static> ObjR for RObj<E, T> {
@@ -489,6 +510,22 @@ impl std::io::Write for SharedBytes {
         Ok(())
     }
 }
+/// a sink that stages what it is given and hands it to the destination only when it is itself flushed
+/// (a BufWriter-like object): makes the propagation of flush() through the writer and the adapter observable
+pub struct StagedBytes {
+    staged: Vec<u8>,
+    committed: Rc<RefCell<Vec<u8>>>,
+}
+impl std::io::Write for StagedBytes {
+    fn write(&mut self, buf: &[u8]) -> std::io::Result<usize> {
+        self.staged.extend_from_slice(buf);
+        Ok(buf.len())
+    }
+    fn flush(&mut self) -> std::io::Result<()> {
+        self.committed.borrow_mut().extend(self.staged.drain(..));
+        Ok(())
+    }
+}
 pub struct RecWriter<W> {
     log: Rc<RefCell<Vec<u8>>>,
     _m: PhantomData<W>,
@@ -553,6 +590,13 @@ macro_rules! mk_writer_e {
                 let s2 = store.clone();
                 let obs: Observer = Box::new(move || (s2.borrow().clone(), true));
                 let bw = BufBitWriter::<$E, _>::new(WordAdapter::<$W, _>::new(SharedBytes(store)));
+                wrap_w!($E, bw, $count, obs)
+            }
+            4 => {
+                let store = Rc::new(RefCell::new(Vec::<u8>::new()));
+                let s2 = store.clone();
+                let obs: Observer = Box::new(move || (s2.borrow().clone(), true));
+                let bw = BufBitWriter::<$E, _>::new(WordAdapter::<$W, _>::new(StagedBytes { staged: Vec::new(), committed: store }));
                 wrap_w!($E, bw, $count, obs)
             }
             _ => {
@@ -683,9 +727,11 @@ pub fn run_world(hdr: &Group, data: &Group, ops: &[Group]) -> Vec<Group> {
     };
     let mut clone: Option<Box<dyn ObjR>> = None;
     let mut out: Vec<Group> = Vec::new();
+    // over the staging sink only what was committed by a flush is visible: the count is compared after flushes only
+    let delivered_now = |obs: &Observer| -> u128 { obs().0.len() as u128 };
     let delivered = |obs: &Observer| -> u128 {
         let (b, known) = obs();
-        if known {
+        if known && wbackend != 4 {
             b.len() as u128
         } else {
             UNKNOWN
@@ -697,7 +743,7 @@ pub fn run_world(hdr: &Group, data: &Group, ops: &[Group]) -> Vec<Group> {
             Ok(match a(op, 0) {
                 1 => vec![w.write_bits(a(op, 1) as u64, a(op, 2) as usize)? as u128, delivered(&obs)],
                 2 => vec![w.write_unary(a(op, 1) as u64)? as u128, delivered(&obs)],
-                3 => vec![w.flush()? as u128, delivered(&obs)],
+                3 => vec![w.flush()? as u128, if wbackend == 4 { delivered_now(&obs) } else { delivered(&obs) }],
                 4 => vec![w.code(a(op, 1), a(op, 2), a(op, 3), a(op, 4) as u64)? as u128, delivered(&obs)],
                 5 => {
                     let mut buf: Vec<u8> = Vec::new();
@@ -776,9 +822,21 @@ pub fn run_world(hdr: &Group, data: &Group, ops: &[Group]) -> Vec<Group> {
     let (b, _) = obs();
     let mut fin = vec![99u128];
     fin.extend(b.into_iter().map(|x| x as u128));
+    // dropping / unwrapping the writer flushes it (and may panic / fail on a full slice): observed as a
+    // separate group [98, status, bytes after the writer is gone...]
+    let fin_kind = a(hdr, 10);
+    let gone = catch_unwind(AssertUnwindSafe(move || w.finish(fin_kind)));
+    let mut after = vec![98u128];
+    match gone {
+        Ok(true) => {
+            after.push(ST_OK);
+            let (b2, _) = obs();
+            after.extend(b2.into_iter().map(|x| x as u128));
+        }
+        _ => after.push(ST_PANIC),
+    }
+    out.push(after);
     out.push(fin);
-    // dropping the writer flushes it (and may panic on a full slice): keep it out of the result
-    let _ = catch_unwind(AssertUnwindSafe(move || drop(w)));
     out
 }
 
